@@ -146,7 +146,7 @@ static const char *E(const char *p) {
     if (!p) return "?";
     char *o = ring[idx = (idx + 1) % 6]; size_t k = 0;
     for (const unsigned char *c = (const unsigned char *)p; *c && k < 4390; c++) {
-        if (*c <= 0x20 || *c == '%' || *c == 0x7f) { k += snprintf(o + k, 4, "%%%02x", *c); }
+        if (*c <= 0x20 || *c == '%' || *c >= 0x7f) { k += snprintf(o + k, 4, "%%%02x", *c); }
         else o[k++] = (char)*c;
     }
     o[k] = 0; return o;
